@@ -31,14 +31,14 @@ Proof. vm_compute; reflexivity. Qed.
 
 (* trailers-only ABORTED on a unary call, resolved against the strings *)
 Example ex_observe :
-  observe proto_content_subtype true (Call false false)
+  observe proto_content_subtype true no_listeners (Call false false)
           [{| cb_trig := TB; cb_events := [CH ex_headers false true] |}]
   = OGrpc 10 (MHeader (s2z "a%20b")) DAbsent.
 Proof. vm_compute; reflexivity. Qed.
 
 (* a malformed user -bin header: binascii.Error (D2c) *)
 Example ex_observe_bad_bin :
-  observe proto_content_subtype true (Call false false)
+  observe proto_content_subtype true no_listeners (Call false false)
           [{| cb_trig := TB;
               cb_events := [CH [(s2z ":status", s2z "200"); (s2z "content-type", s2z "application/grpc");
                                 (s2z "x-bin", s2z "A")] false false;
@@ -49,30 +49,46 @@ Proof. vm_compute; reflexivity. Qed.
 (* the domain is not trivial: it contains, outside the defect classes, cells of every row *)
 Definition result_is (r : result) (k : kind) (bs : list batch) : bool :=
   negb (defect k bs) &&
-  match outcome k bs, r with
+  match outcome no_listeners k bs, r with
   | ROk _, ROk _ => true
   | RExc e, RExc e' => exn_eqb e e'
   | RHang, RHang => true
   | _, _ => false
   end.
 
+Definition cfg0 (k : kind) : config := (no_listeners, k, 2%nat).
+Definition cfgL (k : kind) : config := (all_listeners, k, 1%nat).
+
 Example ex_domain_server_status :
-  exists bs, In bs (cases_of 2 (Call false false)) /\
+  exists bs, In bs (cases_of (cfg0 (Call false false))) /\
              result_is (RExc (XServer BTrl)) (Call false false) bs = true.
-Proof. rewrite cases_of_eq. apply exists_scripts_sound. vm_compute. reflexivity. Qed.
+Proof. apply exists_scripts_sound. vm_compute. reflexivity. Qed.
 
 Example ex_domain_success_stream :
-  exists bs, In bs (cases_of 2 (Call true true)) /\ result_is (ROk 0) (Call true true) bs = true.
-Proof. rewrite cases_of_eq. apply exists_scripts_sound. vm_compute. reflexivity. Qed.
+  exists bs, In bs (cases_of (cfg0 (Call true true))) /\ result_is (ROk 0) (Call true true) bs = true.
+Proof. apply exists_scripts_sound. vm_compute. reflexivity. Qed.
 
 Example ex_domain_terminated_open :
-  exists bs, In bs (cases_of 2 (Open false false [RI; RM; RT])) /\
+  exists bs, In bs (cases_of (cfg0 (Open false false [RI; RM; RT]))) /\
              result_is (RExc XTerminated) (Open false false [RI; RM; RT]) bs = true.
-Proof. rewrite cases_of_eq. apply exists_scripts_sound. vm_compute. reflexivity. Qed.
+Proof. apply exists_scripts_sound. vm_compute. reflexivity. Qed.
 
 Example ex_domain_hang_allowed :
-  exists bs, In bs (cases_of 2 (Call false true)) /\ result_is RHang (Call false true) bs = true.
-Proof. rewrite cases_of_eq. apply exists_scripts_sound. vm_compute. reflexivity. Qed.
+  exists bs, In bs (cases_of (cfg0 (Call false true))) /\ result_is RHang (Call false true) bs = true.
+Proof. apply exists_scripts_sound. vm_compute. reflexivity. Qed.
+
+(* the listener configurations contain scripts whose last batch is delivered during a suspension and
+   ends the call with the upgraded server status *)
+Example ex_domain_listener_cut :
+  exists bs, In bs (cases_of (cfgL (Call false false))) /\
+             (existsb (fun b => match b_trig b with TL => existsb (fun e => match e with AGoaway | ALost => true | _ => false end) (b_events b) | _ => false end) bs
+              && match outcome all_listeners (Call false false) bs with
+                 | RExc (XServer BTrl) => true | _ => false end) = true.
+Proof. apply exists_scripts_sound. vm_compute. reflexivity. Qed.
+
+Example ex_configs : In (cfg0 (Call false false)) configs /\ In (cfgL (Open false false [RI; RM; RT])) configs /\
+                     List.length configs = 24%nat.
+Proof. vm_compute. repeat split; auto 30. Qed.
 
 (* hypotheses of the row theorems are satisfiable inside the domain *)
 Example ex_row_hyps :
@@ -92,7 +108,7 @@ Definition ex_long : list batch :=
    {| b_trig := TB; b_events := [AD false; AD false; AT (T_of GsErr)] |}].
 Example ex_long_hyp : wf_script ex_long = true /\ ev_ended (events ex_long) = true.
 Proof. vm_compute; split; reflexivity. Qed.
-Example ex_long_outcome : outcome (Open true true [RI; RM; IT]) ex_long = RExc (XServer BTrl).
+Example ex_long_outcome : outcome all_listeners (Open true true [RI; RM; IT]) ex_long = RExc (XServer BTrl).
 Proof. vm_compute; reflexivity. Qed.
 
 (* size of the enumeration (cells per kind) *)
@@ -101,5 +117,5 @@ Definition count_scripts maxd trs : Z :=
             (all_layouts maxd) 0.
 Example ex_domain_size :
   count_scripts 2 [TB] = 43784 /\ count_scripts 2 (step_triggers 3) = 218920 /\
-  List.length all_kinds = 12%nat.
+  count_scripts 1 [TB; TL] = 50704.
 Proof. vm_compute. repeat split; reflexivity. Qed.
